@@ -113,6 +113,7 @@ pub struct Stats {
     pub split_deletions: u64,
     pub faults_fired: BTreeMap<String, u64>,
     pub torn_actions_file: u64,
+    pub stat_fault_runs: u64,
     pub compiles: u64,
     pub distinct: BTreeSet<u64>,
     pub nontrivial: BTreeSet<u64>,
@@ -127,7 +128,7 @@ impl Stats {
         json!({"histories": self.histories, "histories_skipped": self.histories_skipped, "ops": self.ops,
             "regens_checked": self.regens_checked, "regens_err": self.regens_err, "items_preserved": self.items_preserved,
             "items_appended": self.items_appended, "split_deletions": self.split_deletions, "faults_fired": self.faults_fired,
-            "torn_actions_file": self.torn_actions_file, "compiles": self.compiles,
+            "torn_actions_file": self.torn_actions_file, "stat_fault_runs": self.stat_fault_runs, "compiles": self.compiles,
             "distinct": self.distinct.iter().collect::<Vec<_>>(), "nontrivial": self.nontrivial.iter().collect::<Vec<_>>(),
             "grammars": self.grammars.iter().collect::<Vec<_>>(), "samples": self.samples, "rules_checked": self.rules_checked})
     }
@@ -583,6 +584,17 @@ pub fn run_case(env: &Env, case: &Case, m: &Model, st: &mut Stats) -> RunResult 
                 }
                 let failing_fired = o.stat.errno > 0;
                 let after = o.file(&aname);
+                // `Path::exists()` answers "no" when stat fails, so a failing
+                // stat makes the compiler treat the actions file as absent and
+                // start from scratch.  C18 does not quantify over faults
+                // (DESIGN.md 4/C18, 11): counted, never alarmed, and nothing
+                // else is relaxed.
+                if failing_fired && o.events.iter().any(|e| e.fault == F_ERRNO && (e.op == crate::shim::OP_STAT || e.op == crate::shim::OP_FSTAT)) {
+                    st.stat_fault_runs += 1;
+                    cur = after.or(cur);
+                    last_clean_regen = None;
+                    continue;
+                }
                 if let Ok(d) = std::env::var("VERIF_DUMP") {
                     let _ = std::fs::write(format!("{d}/step{si}.before.rs"), cur.clone().unwrap_or_default());
                     let _ = std::fs::write(format!("{d}/step{si}.after.rs"), after.clone().unwrap_or_default());
